@@ -305,7 +305,7 @@ impl<T: Qcow2IoOps> Qcow2Dev<T> {
         {
             Some(to_kill) => {
                 log::warn!("add_rb_slice: cache eviction, slices {}", to_kill.len());
-                let res = self.flush_cache_entries(to_kill.clone()).await;
+                let res = self.flush_cache_entries(to_kill.clone(), false).await;
 
                 if res.is_err() {
                     // the victims aren't written back, and they are lost unless
